@@ -148,6 +148,10 @@ pub fn run_case(_ctx: &Ctx, case: &Value, tag: usize, rep: &mut Report, mb: &mut
         }
         chk(&tree, &ne, rep, case);
     }
+    // the containment answers of the slicer are judged by the proved decision on the checked certificates (S2):
+    // the slice regexes are the extra lexemes of the sliced engine's lexer specification
+    let lx_model = crate::lx::define_model(&a, tag, rep, mb).map(|x| x.0);
+    let extra_lexemes: Vec<usize> = a.verif_token_parser().map(|tp| tp.parser.verif_lexemes().iter().enumerate().filter(|(_, l)| l.2 .5).map(|(i, _)| i).collect()).unwrap_or_default();
     let mut toks: Vec<u32> = vec![];
     for step in 0..steps {
         if a.is_stopped() || b.is_stopped() {
@@ -187,6 +191,16 @@ pub fn run_case(_ctx: &Ctx, case: &Value, tag: usize, rep: &mut Report, mb: &mut
         if applied > 0 { rep.count("states.slices_applied"); rep.nontrivial(format!("{}|{:?}|{:?}", case["grammar"], case["slices"], toks)); } else { rep.count("states.no_slice_applied"); }
         // model: sliced result from the logged containment outcomes and the unsliced mask
         let matched: Vec<usize> = log.iter().filter(|(_, r)| *r).map(|(i, _)| *i).collect();
+        if let (Some(id), Some(st)) = (lx_model, eng::vstate(&a)) {
+            let top_row = st.lexer_stack.last().map(|e| e.0).unwrap_or(0);
+            let u: Vec<u8> = st.lexer_stack.iter().filter(|e| e.0 == top_row).filter_map(|e| e.2).collect();
+            for &i in &matched {
+                if let Some(&sl) = extra_lexemes.get(i) {
+                    mb.push(format!("lx contain {id} {} {sl} {}", crate::vocab::hex_or_underscore(&u), show_list(&st.lexer_top.0)), "ok 1".into(), tag);
+                    rep.count("containment.claims_checked");
+                }
+            }
+        }
         for &i in &matched {
             if let Some(sl) = find_slice(&tree, i) {
                 if let Some(bad) = sl.mask_with_children.iter().find(|t| mask.binary_search(t).is_err()) {
